@@ -794,6 +794,17 @@ Proof.
 Qed.
 
 
+(* the machine's own table on both sides: the premise of the two-machine theorems of C08 and C16 *)
+Example C01_vm_tables_hold : tabs_ok demo_names vm_tab vm_tab.
+Proof.
+  constructor.
+  - reflexivity.
+  - reflexivity.
+  - intros g Hg. destruct (tab_names _ g Hg) as [->|[->|[->|[->|[->|[->|[->| ->]]]]]]]; reflexivity.
+  - intros nm body H. cbn [vm_tab tab_of ft_body] in H. destruct (existsb (String.eqb nm) other_builtins); [|discriminate H].
+    injection H as <-. split; [reflexivity|exists []; reflexivity].
+Qed.
+
 (* the demonstration session, definitions included, on both sides *)
 Example C01_demo_sem_vs_vm : agree [] [] sem_tab vm_tab sem_init mc_after_first demo_items.
 Proof.
